@@ -46,6 +46,8 @@ nsteps = 0
 for name in R.RECIPES:
     if 'table forms' in name:
         continue       # the table-form products (hundreds of fits): selftest/test_registry_tables.py
+    if name.startswith('containers['):
+        continue       # container-form products incl. forms the calls reject (they raise): selftest/test_registry_containers.py
     c = R.run_recipe(name, 'ndarray', 'clean', 0)
     check(c is not None and c.steps, f'recipe {name}: no steps')
     if c is None:
